@@ -10,8 +10,9 @@ CHECKS = {
          "in the compiled engine outside four named finding classes (each with a refuted-witness theorem). The sentinel's method "
          "table, the In/NotIn guards and the comparator table are regenerated from selector.py on every run, so a change there "
          "breaks `reflexivity` side conditions (the tables are OBSERVED by calling the live methods / comparator functions on probe "
-         "operands and logging containers; the ast recognisers cross-check); the complete finite grammar of the property (11k expressions, "
-         "the missing operand spelled as a missing field and as an attribute of one) is run on both "
+         "operands and logging containers; the ast recognisers cross-check); the complete finite grammar of the property (16k expressions, "
+         "the missing operand spelled as a missing field and as an attribute of one; the other operands include the degenerate values of "
+         "every field type - empty path of either flavour, empty string / bytes / list / digest, zero, False, windows command, IPv6) is run on both "
          "engines and compared case by case with the model evaluated inside Coq, and mixed streams are filtered through "
          "RecordReader and rdump.",
     note="Trusted: Coq kernel + vm_compute; translator tools/vf/facts.py (AST/inspect of NoneObject, AST_COMPARATORS); the probe "
